@@ -146,7 +146,12 @@ def run(ctx):
     # ---- D: connection vs sweep under real concurrency (interleavings INSIDE the locked methods, which no gate reaches):
     # every registration must end in one of the two serial outcomes (used and kept / removed and never used)
     sp = os.path.join(ctx.scratch, "sweepmark.ndjson")
-    ctx.go_test(PKG, STRESS_FILES, "lib", "^TestVerifSweepMarkStress$", env={"VERIF_OUT": sp, "VERIF_ROUNDS": 300 if thorough else 40}, timeout=900)
+    rs = ctx.go_test(PKG, STRESS_FILES, "lib", "^TestVerifSweepMarkStress$", env={"VERIF_OUT": sp, "VERIF_ROUNDS": 300 if thorough else 40}, timeout=240)
+    st = ctx.stall_sites(rs)
+    if st:
+        ctx.violation("deadlock:sweep-vs-connection:%s" % "+".join(st), "sweep racing with connections hung: goroutines blocked for good in %s" % ", ".join(st),
+                      {"dump": rs["out"][-6000:]})
+        return
     srows = ctx.read_results(sp)
     ssum = [x for x in srows if x.get("kind") == "summary"]
     if not ssum:
